@@ -5,7 +5,11 @@ class by the correspondence streams of `harness/lattices/hollowplanar3dcode.py`)
 coordinate system, all stabilizer generators commute (vertex operators are truncated by the
 `is_qubit` filter at the open boundaries AND at the hole; face operators outside the hole are never
 truncated by the hole), the logical operators commute with the stabilizers and anticommute with each
-other, `n` = the `n` of `Planar3DCode` minus the edges in the hole, `k = 1`, and `get_deformation`
+other (the logical Z is the one `get_logicals_z` lists since the repair of the C17 finding: Z on the
+existing x edges of the cross-section `x = 3` when `Lx ≥ 3` — the membrane through the cavity —
+and of the end plane `x = 1` when `Lx ≤ 2`; it differs from the end plane, the logical Z before the
+repair, by the product of the vertex generators with `x = 2`, so it meets every face generator on an
+even number of qubits and the logical X line on one qubit), `n` = the `n` of `Planar3DCode` minus the edges in the hole, `k = 1`, and `get_deformation`
 never returns a map (the class defines none; `deformation_names = []`).
 
 The rank clause is proved for all sizes at the operator level (`rank_family`): an explicit family
@@ -21,6 +25,7 @@ the generic code model (`Model/Code.lean`, C02) assemble from this lattice model
 the family, with or without a cavity.
 -/
 import PanqecVerif.Proofs.LatHollowPlanar3DCodeRank
+import PanqecVerif.Proofs.LatHollowPlanar3DCodeLogZ
 import PanqecVerif.Proofs.Lat3DRankBridge
 
 namespace Panqec.C01HollowPlanar3DCode
@@ -59,7 +64,8 @@ theorem wf (Lx Ly Lz : Nat) (hLx : 1 ≤ Lx) (hLy : 1 ≤ Ly) (hLz : 1 ≤ Lz) :
     exact ⟨hq _ he.1, by rw [he.2]; exact hp⟩
 
 /-- The operator-level C01 clauses other than rank, for every supported size: any two stabilizer
-    generators commute; the logical X and the logical Z commute with every generator; there is one
+    generators commute; the logical X and the logical Z (the cross-section `x = 3` without the hole
+    when `Lx ≥ 3`, the end plane `x = 1` otherwise) commute with every generator; there is one
     of each and they anticommute. -/
 theorem commPair (Lx Ly Lz : Nat) (hLx : 1 ≤ Lx) (hLy : 1 ≤ Ly) (hLz : 1 ≤ Lz) :
     (lattice Lx Ly Lz).CommPair := by
@@ -245,6 +251,17 @@ example : getStab? 3 3 3 [3, 1, 2] = none ∧
     getStab? 3 3 3 [3, 1, 4] =
       some [([2, 1, 4], .X), ([4, 1, 4], .X), ([3, 0, 4], .X), ([3, 2, 4], .X)] := by decide +kernel
 example : opAntiCount ((logX 3 3 3).getD 0 []) ((logZ 3 3 3).getD 0 []) = 1 := by decide +kernel
+/-- the listed logical Z of a lattice with a cavity: the 8 x edges `(3, y, z)` around the hole
+    (`(3, 2, 2)` is not a qubit) -/
+example : logZ 3 3 3 = [[([3, 0, 0], .Z), ([3, 0, 2], .Z), ([3, 0, 4], .Z), ([3, 2, 0], .Z),
+    ([3, 2, 4], .Z), ([3, 4, 0], .Z), ([3, 4, 2], .Z), ([3, 4, 4], .Z)]] := by decide +kernel
+/-- `Lx ≤ 2`: there is no cross-section `x = 3` inside the hole range; the end plane `x = 1`, as
+    before the repair -/
+example : logZ 2 2 2 = [[([1, 0, 0], .Z), ([1, 0, 2], .Z), ([1, 2, 0], .Z), ([1, 2, 2], .Z)]] ∧
+    logZ 2 2 2 = oldLogZ 2 2 2 := by decide +kernel
+/-- `Lx ≥ 3` but no x edge in the hole (`Ly = 2`): the full plane `x = 3` -/
+example : logZ 4 2 3 = [[([3, 0, 0], .Z), ([3, 0, 2], .Z), ([3, 0, 4], .Z), ([3, 2, 0], .Z),
+    ([3, 2, 2], .Z), ([3, 2, 4], .Z)]] := by decide +kernel
 example : HollowPlanar3DCode.getDeformation "XZZX" none [1, 0, 0] = none := rfl
 
 end Panqec.C01HollowPlanar3DCode
